@@ -739,13 +739,12 @@ func (s *ResettableKeystore) ResetCids(ctx context.Context, keysChan <-chan cid.
 	case <-s.done:
 		return ErrClosed
 	case s.resetOps <- resetOp{ctx: ctx, op: opStart, response: opsChan}:
-		select {
-		case err := <-opsChan:
-			if err != nil {
-				return err
-			}
-		case <-ctx.Done():
-			return ctx.Err()
+		// The worker always answers an accepted op. Returning on ctx.Done()
+		// here would leave it blocked forever on the unbuffered response
+		// channel; a cancelled ctx is noticed by Phase A below, after which
+		// the deferred opCleanup undoes the start.
+		if err := <-opsChan; err != nil {
+			return err
 		}
 	}
 
